@@ -3,7 +3,7 @@
 import ast
 import copy
 
-__all__ = ['path_condition', 'skeleton', 'parse_expr', 'reaching_value', 'chain', 'is_chain', 'src', 'walk', 'stmts', 'Env', 'call_name', 'const',
+__all__ = ['context_of', 'path_condition', 'skeleton', 'parse_expr', 'reaching_value', 'chain', 'is_chain', 'src', 'walk', 'stmts', 'Env', 'call_name', 'const',
            'names_loaded', 'names_stored', 'is_none_test', 'strip_not', 'flatten_bool',
            'norm', 'same', 'kwarg', 'contains_name', 'iter_child_stmts', 'assigned_names',
            'targets_of']
@@ -381,5 +381,54 @@ def path_condition(body, target):
             elif isinstance(s, (ast.For, ast.While, ast.Try, ast.With)):
                 if any(n is target for n in ast.walk(s)):
                     return None
+        return None
+    return rec(body, [])
+
+
+def context_of(body, target):
+    """Enclosing context of node ``target`` (statement or expression) inside ``body``:
+    list of ('if', test, polarity) | ('guard', test, polarity) | ('for', target, iter) | ('while', test) | ('try',) | ('except', handler)
+    in outer-to-inner order, or None if not found."""
+    def contains(stmt):
+        return any(n is target for n in ast.walk(stmt))
+
+    def rec(block, ctx):
+        ctx = list(ctx)
+        for s in block:
+            if s is target or (not isinstance(s, (ast.If, ast.For, ast.While, ast.Try, ast.With)) and contains(s)):
+                return ctx
+            if isinstance(s, ast.If):
+                if any(n is target for n in ast.walk(s.test)):
+                    return ctx
+                for blk, pol in ((s.body, True), (s.orelse, False)):
+                    if any(contains(x) for x in blk):
+                        return rec(blk, ctx + [('if', s.test, pol)])
+                if s.body and isinstance(s.body[-1], (ast.Return, ast.Raise, ast.Continue, ast.Break)) and not s.orelse:
+                    ctx = ctx + [('guard', s.test, False)]
+                elif s.orelse and isinstance(s.orelse[-1], (ast.Return, ast.Raise, ast.Continue, ast.Break)) and not (
+                        s.body and isinstance(s.body[-1], (ast.Return, ast.Raise, ast.Continue, ast.Break))):
+                    ctx = ctx + [('guard', s.test, True)]
+            elif isinstance(s, (ast.For, ast.AsyncFor)):
+                if any(n is target for n in ast.walk(s.iter)):
+                    return ctx
+                if any(contains(x) for x in s.body):
+                    return rec(s.body, ctx + [('for', s.target, s.iter)])
+                if any(contains(x) for x in s.orelse):
+                    return rec(s.orelse, ctx)
+            elif isinstance(s, ast.While):
+                if any(contains(x) for x in s.body):
+                    return rec(s.body, ctx + [('while', s.test)])
+            elif isinstance(s, ast.Try):
+                if any(contains(x) for x in s.body):
+                    return rec(s.body, ctx + [('try',)])
+                for h in s.handlers:
+                    if any(contains(x) for x in h.body):
+                        return rec(h.body, ctx + [('except', h)])
+                for blk in (s.orelse, s.finalbody):
+                    if any(contains(x) for x in blk):
+                        return rec(blk, ctx)
+            elif isinstance(s, ast.With):
+                if any(contains(x) for x in s.body):
+                    return rec(s.body, ctx)
         return None
     return rec(body, [])
